@@ -60,6 +60,23 @@ func init() {
 	addPool("q", "E", irgen.Enum("int"))
 	addPool("q", "AP", ref("p.AS"))
 	addPool("q", "AK", ref("p.K"))
+	// same-named objects in different packages (re-exports): chains crossing them
+	addPool(P, "X", ref("q.X"))
+	addPool("q", "X", irgen.StructN(
+		[]irgen.Field{{Name: "z", Required: true}, {Name: "k", Required: true}},
+		[]irgen.Term{irgen.S("string"), ref("p.KX")}))
+	addPool(P, "AX", ref("p.X")) // p.AX → p.X → q.X (struct)
+	addPool("q", "AX", ref("p.AX"))
+	addPool(P, "Y", ref("q.Y")) // p.Y → q.Y → r.Y (struct): three packages
+	addPool("q", "Y", ref("r.Y"))
+	addPool("r", "Y", irgen.Struct1("y", true, ref("q.KY")))
+	addPool(P, "KX", ref("q.KX")) // p.KX → q.KX (constant)
+	addPool("q", "KX", irgen.Const("int"))
+	addPool(P, "KY", ref("q.KY")) // p.KY → q.KY → r.KY (constant)
+	addPool("q", "KY", ref("r.KY"))
+	addPool("r", "KY", irgen.Const("str"))
+	addPool("r", "K", ref("p.K"))       // r.K → p.K (constant), the other direction
+	addPool("r", "S", ref("q.S"))       // r.S → q.S (struct)
 	addPool(P, "D", ref("p.Missing"))   // dangling aliases
 	addPool(P, "DQ", ref("zz.Missing")) // … into a package that does not exist
 	addPool(P, "AD", ref("p.D"))
@@ -554,6 +571,8 @@ func fieldLeaves(thorough bool) []irgen.Term {
 		ref("p.T"), ref("p.AS2"), ref("p.AK2"), ref("p.AE"), ref("p.AC"), ref("p.KN"), ref("p.U"),
 		ref("q.K"), ref("q.S"), ref("q.AK"), ref("q.AP"), irgen.ConstRef("q.E"),
 		ref("p.Missing"), ref("p.D"),
+		// chains crossing same-named objects of different packages
+		ref("p.X"), ref("p.AX"), ref("p.Y"), ref("p.KX"), ref("q.KX"), ref("p.KY"), ref("q.KY"), ref("r.K"), ref("r.S"),
 	)
 	if thorough {
 		for _, s := range irgen.AllScalarKinds() {
@@ -591,6 +610,29 @@ func decorate(t irgen.Term, full bool) []irgen.Term {
 	return out
 }
 
+func permutations(n int) [][]int {
+	if n == 0 {
+		return [][]int{{}}
+	}
+	var out [][]int
+	var rec func(cur []int, used []bool)
+	rec = func(cur []int, used []bool) {
+		if len(cur) == n {
+			out = append(out, append([]int{}, cur...))
+			return
+		}
+		for i := 0; i < n; i++ {
+			if !used[i] {
+				used[i] = true
+				rec(append(cur, i), used)
+				used[i] = false
+			}
+		}
+	}
+	rec(nil, make([]bool, n))
+	return out
+}
+
 func rootDef(t irgen.Term) objDef { return objDef{P, "Root", t} }
 
 func enumerate(thorough bool) ([]testCase, map[string]int) {
@@ -601,7 +643,19 @@ func enumerate(thorough bool) ([]testCase, map[string]int) {
 		cases = append(cases, testCase{family: family, spec: spec})
 		families[family]++
 	}
-	pq := []string{P, "q"}
+	pq := []string{P, "q", "r"}
+	raw := add
+	// every multi-package schema set is enumerated in all package orders
+	add = func(family string, spec irgen.SchemaSpec) {
+		for _, perm := range permutations(len(spec.Pkgs)) {
+			c := spec
+			c.Pkgs = make([]irgen.PkgSpec, len(spec.Pkgs))
+			for i, j := range perm {
+				c.Pkgs[i] = spec.Pkgs[j]
+			}
+			raw(family, c)
+		}
+	}
 
 	// 1. one struct holding one field: every field type term × {required, optional}
 	cfg := irgen.Config{Depth: 2, Leaves: fieldLeaves(thorough)}
@@ -729,10 +783,6 @@ func enumerate(thorough bool) ([]testCase, map[string]int) {
 	sub = func(start int, cur []objDef) {
 		if len(cur) > 0 {
 			add("object-set", mkSpec("", pq, cur...))
-			sp := mkSpec("", []string{"q", P}, cur...)
-			if len(sp.Pkgs) > 1 {
-				add("object-set", sp)
-			}
 		}
 		if len(cur) == maxSet {
 			return
